@@ -18,7 +18,8 @@ only.  Nothing here touches the subject (/repo).
    every dict / set keyed by paths) may then be "short-circuited" to a FREE symbolic int, which
    makes dict look-ups fork without bound (CANNOT_CONFIRM) or raise TypeError.  The
    work-around makes CrossHair never short-circuit `_hash`: the real hash is always computed -
-   strictly more precise, nothing is assumed.  Found by the C15 / C16 harness work.
+   strictly more precise, nothing is assumed.  The same holds for `repr` (free symbolic strings in
+   error messages).  Found by the C15 / C16 / C18 harness work.
 """
 import operator
 
@@ -78,11 +79,13 @@ def _fix_hash_shortcircuit():
         return
 
     def consider_shortcircuit(fn, *a, **kw):
-        if getattr(fn, '__name__', '') == '_hash' and kw.get('allow_interpretation', True):
+        # any contract-carrying replacement of a builtin that CrossHair itself installs (_hash, _repr, ...)
+        if (getattr(fn, '__module__', '') or '').startswith('crosshair.') and kw.get('allow_interpretation', True):
             return None
         return orig(fn, *a, **kw)
 
     consider_shortcircuit._c15_patched = True
+    consider_shortcircuit._c18_patched = True
     core.consider_shortcircuit = consider_shortcircuit
 
 
